@@ -44,6 +44,9 @@ abbrev Graph (α : Type) := List (String × List (Mem α))
 inductive RsLeaf where
   | pfx (p : Pfx) (op : RangeOp)
   | asn (a : Nat)
+  /-- a member word that is not an address prefix with a range operator at all (the IRR is not
+  trusted to hold only well-formed objects); `k` selects one of a fixed list of such words -/
+  | junk (k : Nat)
   deriving DecidableEq, Repr
 
 /-- one `filter-set` object (several sources may hold one for the same key); `mpFilter = none`:
@@ -109,6 +112,7 @@ inductive ErrResp where
 inductive Item where
   | asn (a : Nat)                     -- `AS65001`
   | member (p : Pfx) (op : RangeOp)   -- `192.0.2.0/24`, `10.0.0.0/8^+`
+  | junk (k : Nat)                    -- a word that is no prefix range (`}<AS1>{`, `x`, `10.0.0.0/8^` …)
   | obj (o : FsObj)                   -- RPSL text of a filter-set object
   deriving DecidableEq, Repr
 
@@ -130,6 +134,7 @@ def dataOr (db : Db) (items : List Item) : Response :=
 def rsLeafItems (db : Db) : RsLeaf → List Item
   | .pfx p op => [.member p op]
   | .asn a => (routesOf db a).map (.member · .none)   -- IRRd resolves AS members of route-sets itself
+  | .junk k => [.junk k]
 
 /-- the IRRd server: response to one query -/
 def serve (db : Db) : Query → Response
